@@ -251,11 +251,11 @@ def run_queue_part(rep, tier, rng, bdir, replay=None):
 def run(tier, seed, replay=None):
     rep = Report("C18", tier, seed)
     ok, msg = gen_consts("c18")
-    cb = coq_build("Properties_C18")
+    cb = coq_build("Properties_C18", extra=(["IdMap/IdMapProps"] if c18_idmap is not None else []))
     gate = coq_gate()
     rep.proof_cov(cb, "make -C coq Props/Properties_C18.vo && coqc Props/Properties_C18.v (Print Assumptions) ; grep gate")
     proof_ok = ok and cb["ok"] and not gate
-    model_build("queue")
+    model_build(*(["queue", "idmap"] if c18_idmap is not None else ["queue"]))
     bdir, err = nng_build("asan")
     if bdir is None:
         p = rep.replay_file("build_failed.txt", err)
@@ -270,7 +270,16 @@ def run(tier, seed, replay=None):
         run_queue_part(rep, tier, rng, bdir, replay if kind == "queue" else None)
     if kind in (None, "idmap"):
         if c18_idmap is not None:
-            c18_idmap.run_idmap(rep, tier, rng, bdir, replay if kind == "idmap" else None)
+            st = c18_idmap.run_idmap(rep, tier, rng, bdir, replay if kind == "idmap" else None)
+            if isinstance(st, dict):
+                for k2, v2 in st.items():
+                    if k2 in ("idmap_evaluations", "idmap_distinct_nontrivial") and isinstance(v2, int):
+                        rep.cov[k2[6:]] = rep.cov.get(k2[6:], 0) + v2
+                        rep.cov[k2] = v2
+                    elif k2 == "idmap_samples":
+                        rep.cov["samples"] += v2
+                    else:
+                        rep.cov[k2] = v2
         else:
             rep.cov["idmap"] = "id-map module not present: " + _idmap_import_error
     if not proof_ok and not rep.violations:
